@@ -37,6 +37,21 @@ type bagMsg struct {
 	conn        uint32
 	secs, nsecs uint32
 	data        []byte
+	z, seed     int // size and pattern seed of a payload that fill() has yet to build
+}
+
+// fill builds the payloads genBag only described.
+func (s *bagSpec) fill() *bagSpec {
+	for i := range s.msgs {
+		m := &s.msgs[i]
+		if m.data == nil {
+			m.data = make([]byte, m.z)
+			for k := range m.data {
+				m.data[k] = byte(k*7 + m.seed)
+			}
+		}
+	}
+	return s
 }
 
 type bagSpec struct {
@@ -302,11 +317,8 @@ func genBag(x *explore.Ctx, big bool) (*bagSpec, gow.Config) {
 		if mode == 1 || (mode == 3 && nm < 3) || (mode == 0 && (nm < 3 || big)) {
 			v = variants[x.Choose("arg", len(variants))]
 		}
-		d := make([]byte, v.z)
-		for k := range d {
-			d[k] = byte(k*7 + i + 1)
-		}
-		s.msgs = append(s.msgs, bagMsg{conn: c, secs: v.secs, nsecs: v.nsecs, data: d})
+		// the payload is materialised by fill(): enumerating the case list must not allocate megabytes per case
+		s.msgs = append(s.msgs, bagMsg{conn: c, secs: v.secs, nsecs: v.nsecs, z: v.z, seed: i + 1})
 		x.Ops++
 	}
 	cfg := gow.Config{CRC: true, Chunked: true, ChunkSize: 64}
@@ -758,7 +770,7 @@ func checkDB3Conversion(s *db3Spec, cfg gow.Config) (class, what string) {
 func c18SeedBag() []byte {
 	s := &bagSpec{comp: "lz4", repeatConn: false,
 		conns: []bagConn{{id: 0, topic: "/a", typ: "std_msgs/String", md5: "992ce8a1687cec8c8bd883ec73ca41d1", def: "string data\n"}, {id: 1, topic: "/b", typ: "pkg/Two", md5: "02", def: "int32 a\n", callerid: "/n"}},
-		msgs:  []bagMsg{{0, 1, 2, []byte("hello")}, {1, 3, 4, []byte{1, 2, 3, 4}}, {0, 5, 6, nil}},
+		msgs:  []bagMsg{{conn: 0, secs: 1, nsecs: 2, data: []byte("hello")}, {conn: 1, secs: 3, nsecs: 4, data: []byte{1, 2, 3, 4}}, {conn: 0, secs: 5, nsecs: 6, data: []byte{}}},
 		partition: [][]int{{0, 1}, {2}}}
 	b, _ := encodeBag(s)
 	return b
@@ -855,6 +867,7 @@ func C18(r *chk.Run) {
 	fams := []fam{
 		{"bags", len(bagCases), func(i int) []iso.Outcome {
 			s, cfg := genBag(explore.Replay(bagCases[i]), big)
+			s.fill()
 			var bag []byte
 			var order []int
 			if s.independent != 0 {
